@@ -508,7 +508,7 @@ func asNontrivial(ev []map[string]any) bool {
 }
 
 var asOpsBasic = [][2]string{{"nop", ""}, {"nop", ""}, {"fail", ""}, {"tell", "@"}, {"kill", "@"}, {"pkill", "@"}}
-var asOpsStash = [][2]string{{"nop", ""}, {"stash", ""}, {"stash", ""}, {"unstash", ""}, {"fail", ""}, {"tell", "@"}}
+var asOpsStash = [][2]string{{"nop", ""}, {"stash", ""}, {"stash", ""}, {"unstash", ""}, {"fail", ""}, {"tell", "@"}, {"tellself", ""}}
 var asOpsStream = [][2]string{{"nop", ""}, {"sub", "A"}, {"sub", "B"}, {"unsub", "A"}, {"unsuball", ""}, {"pub", "A"}, {"pub", "A"}, {"pub", "B"}, {"fail", ""}, {"kill", "@"}}
 var asOpsWatch = [][2]string{{"nop", ""}, {"watch", "@"}, {"watch", "@"}, {"unwatch", "@"}, {"kill", "@"}, {"pkill", "@"}, {"fail", ""}}
 
